@@ -15,6 +15,7 @@ import (
 	"github.com/bartossh/Computantis/src/notaryserver"
 	"github.com/bartossh/Computantis/src/pipe"
 	"github.com/bartossh/Computantis/src/protobufcompiled"
+	pb "github.com/bartossh/Computantis/src/protobufcompiled"
 	"github.com/bartossh/Computantis/src/spice"
 	"github.com/bartossh/Computantis/src/transaction"
 	"github.com/bartossh/Computantis/src/wallet"
@@ -213,6 +214,12 @@ type World struct {
 	Crafted  []accountant.Vertex
 	syncStuck [][2]int
 	Mutants  []mutantRec
+	streamBad *pb.Vertex
+	panicSeen map[string]bool
+	nowhereNode *Node
+	parkedSeen map[int]int
+	Ops      int
+	taskPanicReported map[int]bool
 	stuck    []*opHandle
 }
 
@@ -343,6 +350,41 @@ func (w *World) stopNode(i int) {
 	n.Hippo.Close()
 	n.Flash.Close()
 	n.Book.VerifClose()
+}
+
+// addNode appends one more node (a late joiner) to the world.
+func (w *World) addNode() *Node {
+	wl := newWalletFrom(w.rng)
+	n := &Node{Idx: len(w.Nodes), URL: fmt.Sprintf("sim://n%d", len(w.Nodes)), W: wl, Addr: wl.Address()}
+	w.Nodes = append(w.Nodes, n)
+	return n
+}
+
+// opEnabled tells a scenario whether its k-th generated operation is to be executed. Scenarios
+// draw each operation from its own PRNG (opRNG) so that leaving one out does not change the others.
+func (w *World) opEnabled(k int) bool {
+	if k+1 > w.Ops {
+		w.Ops = k + 1
+	}
+	if w.Cfg.OpLimit > 0 && k >= w.Cfg.OpLimit {
+		return false
+	}
+	for _, s := range w.Cfg.OpSkip {
+		if s == k {
+			return false
+		}
+	}
+	return true
+}
+
+func (w *World) opRNG(k int) *prng { return newPRNG(w.Seed ^ 0x0F0F ^ uint64(k+1)*0x9E3779B97F4A7C15) }
+
+// nowhere is the target of connections to URLs that no node listens on: never alive.
+func (w *World) nowhere() *Node {
+	if w.nowhereNode == nil {
+		w.nowhereNode = &Node{Idx: -2, URL: "sim://nowhere", Alive: false}
+	}
+	return w.nowhereNode
 }
 
 func (w *World) nodeByURL(url string) *Node {
